@@ -105,6 +105,36 @@ fn explore(api: &Api, seed: u64, cx: &mut Cx) {
             }
         }
     }
+    // near-miss seeds: the evaluation under a setup whose seed differs from seed 0 in a single byte (last byte; byte 8;
+    // byte 0) must be the model's evaluation for THAT seed, and differ from seed 0's
+    for pos in [seedf.len - 1, 8.min(seedf.len - 1), 0] {
+        let mut s2 = setup_of(0, 0);
+        s2[seedf.start + pos] ^= 1;
+        for (ci, cid) in cids.iter().enumerate().take(4) {
+            cx.begin_case(json!({"seed": format!("seed 0 with byte {} flipped", pos), "cid": desc(cid)}));
+            cx.state(&("near-seed", pos, ci));
+            cx.path();
+            cx.edges += 2;
+            let mut bt = Tape::seeded(seed, "c14/blind/0");
+            if let Ok((req, _)) = api.reg_start(&mut bt, &pws[0]) {
+                let e0 = api.sreg_start(&Blob::n(&setup_of(0, 0)), &Blob::n(&req), cid);
+                let e2 = api.sreg_start(&Blob::n(&s2), &Blob::n(&req), cid);
+                let m2 = sp.evaluate(seedf.of(&s2), cid, &req);
+                match (e0, e2) {
+                    (Ok(a), Ok(b)) => {
+                        if b[..sp.noe()] != m2[..] {
+                            cx.violate("evaluation/near-miss-seed-differs-from-model", "the evaluation under a seed that differs in one byte is not the reference model's evaluation for that seed".into());
+                        } else if a[..sp.noe()] == b[..sp.noe()] {
+                            cx.violate("evaluation/ignores-seed-byte", format!("flipping byte {} of the OPRF seed does not change the evaluation", pos));
+                        } else {
+                            cx.outcome("near-miss-seed-evaluates-per-model");
+                        }
+                    }
+                    _ => cx.violate("honest-step/error", "registration start fails".into()),
+                }
+            }
+        }
+    }
     // all pairs
     for i in 0..recs.len() {
         for j in 0..i {
